@@ -396,6 +396,8 @@ impl Wal {
             .get_mut()
             .set_len(valid_end)
             .wrap_err("failed to cut torn tail of WAL segment")?;
+        #[cfg(kahflane_turdb_verif)]
+        crate::verif_hooks::io_event(3, &segment.path, valid_end, 0);
         segment
             .writer
             .get_mut()
@@ -574,6 +576,8 @@ impl Wal {
             if path.exists() {
                 remove_file(path)
                     .wrap_err_with(|| format!("failed to remove closed WAL segment {:?}", path))?;
+                #[cfg(kahflane_turdb_verif)]
+                crate::verif_hooks::io_event(5, path, 0, 0);
             }
         }
 
@@ -676,6 +680,8 @@ impl Wal {
             .get_mut()
             .seek(SeekFrom::Start(0))
             .wrap_err("failed to rewind WAL segment after truncate")?;
+        #[cfg(kahflane_turdb_verif)]
+        crate::verif_hooks::io_event(3, &segment.path, 0, 0);
 
         segment.offset = 0;
 
@@ -719,6 +725,8 @@ impl Wal {
                     if segment_num < current_sequence {
                         let path = entry.path();
                         let _ = remove_file(&path);
+                        #[cfg(kahflane_turdb_verif)]
+                        crate::verif_hooks::io_event(5, &path, 0, 0);
                     }
                 }
             }
@@ -1066,6 +1074,8 @@ impl WalSegment {
             .truncate(true)
             .open(path)
             .wrap_err_with(|| format!("failed to create WAL segment at {:?}", path))?;
+        #[cfg(kahflane_turdb_verif)]
+        crate::verif_hooks::io_event(4, path, 0, 0);
 
         Ok(Self {
             writer: std::io::BufWriter::with_capacity(WAL_BUFFER_SIZE, file),
@@ -1132,10 +1142,14 @@ impl WalSegment {
             self.writer
                 .flush()
                 .wrap_err("failed to flush WAL buffer")?;
+            #[cfg(kahflane_turdb_verif)]
+            crate::verif_hooks::io_event(1, &self.path, self.offset, 0);
             self.writer
                 .get_mut()
                 .sync_data()
                 .wrap_err("failed to sync WAL frame to disk")?;
+            #[cfg(kahflane_turdb_verif)]
+            crate::verif_hooks::io_event(2, &self.path, 0, 0);
         }
 
         self.offset += (WAL_FRAME_HEADER_SIZE + PAGE_SIZE) as u64;
@@ -1148,6 +1162,18 @@ impl WalSegment {
         self.writer
             .flush()
             .wrap_err("failed to flush WAL buffer")?;
+        #[cfg(kahflane_turdb_verif)]
+        {
+            crate::verif_hooks::io_event(1, &self.path, self.offset, 0);
+            let synced = self
+                .writer
+                .get_mut()
+                .sync_data()
+                .wrap_err("failed to sync WAL segment to disk");
+            crate::verif_hooks::io_event(2, &self.path, 0, 0);
+            return synced;
+        }
+        #[allow(unreachable_code)]
         self.writer
             .get_mut()
             .sync_data()
